@@ -24,7 +24,7 @@ NOT_APPLICABLE = {
     'C31': "frame condition over the entire framework along API-call histories; per-function frames are proved where they live (C12, C33)",
     'C34': "derivatives come from jax AD / generated code; nothing to put under contract",
 }
-for _p in ['C02','C03','C04','C05','C06','C07','C08','C11','C12','C13','C15','C16','C21','C23','C25','C26','C29','C30','C32']:
+for _p in ['C02','C03','C04','C05','C06','C07','C08','C11','C12','C15','C16','C21','C23','C25','C26','C29','C30','C32']:
     NOT_APPLICABLE.setdefault(_p, NA_DEFAULT)
 
 CLAIMED = {
@@ -58,4 +58,9 @@ CLAIMED = {
         design_ref="DESIGN.md section 3 C27",
         note="Trusted: pyvc, z3. Values are opaque: membership, isinstance and ordering are uninterpreted predicates (sound for any Python objects with consistent comparison). Not covered: types=list element-wise branch, set_function, declare()'s own checks, update/undeclare; the stored value is assumed to satisfy its declaration on entry to temporary() (data-structure invariant).",
         technique="deductive verification: sidecar contracts + symbolic execution of real source (incl. contextmanager generator semantics) -> VCs -> z3 (UF); canaries + native sampling on real OptionsDictionary"),
+    'C13': dict(
+        text="Proof (all lengths and values over the reals) that get_tol_violation returns the maximum of |x-ref| - (atol + rtol|ref|) over all pairs, the (x, ref) pair attaining it, |x-ref| and |x-ref|/|ref| at that pair and an above-tolerance flag equal to 'some pair exceeds its tolerance'; and that _compute_deriv_errors (non-directional checks) reports under forward / reverse / fwd_rev exactly the numbers computed from (J_fwd, J_fd), (J_rev, J_fd) (or (0, J_fd) when no analytic derivative exists) and (J_fwd, J_rev), and returns a flag equal to the disjunction of their violations — proved modularly against get_tol_violation's contract. The sparsity-audit half (every approximated nonzero outside the declared pattern is flagged) is decided only in a BOUNDED exhaustive tier through the real check_partials (all declared x true patterns of a 2x2 / 2x3 map, 5 storage formats) and is reported as bounded, not proved; the defect it found was repaired in /repo.",
+        design_ref="DESIGN.md section 3 C13",
+        note="Trusted: pyvc + NumPy model (argmax with first-index tie rule, .flat), z3, reals for floats. Bounded part: Subjac.set_col family (Python lists of pairs and scipy.sparse internals are outside pyvc's subset). Not covered: directional checks, text rendering in deriv_display, check_totals plumbing.",
+        technique="deductive verification (pyvc -> z3) for the comparison kernels; bounded exhaustive native check for the sparsity audit"),
 }
